@@ -85,14 +85,14 @@ def random_geometry_recipe(rng, kind):
         r["name"] = rng.choice([None, None, None, "part", "my vertex model", "endsolid x", "normal one", "end_header", "facet loop", "o g v f"])
     elif kind == "scene":
         r["parts"] = [meshes.random_recipe(rng, bases=["tetra", "box", "octa", "prism5"], variants=["plain"]) for _ in range(rng.randint(1, 3))]
-        r["instances"] = [[rng.randrange(3), rng.randrange(4), rng.choice(["identity", "translation", "rigid", "similarity"])] for _ in range(rng.randint(1, 4))]
+        r["instances"] = [[rng.randrange(3), rng.randrange(4), rng.choice(["identity", "translation", "rigid", "similarity", "scale_near_one"])] for _ in range(rng.randint(1, 4))]
         r["colors"] = rng.choice([None, "vertex"])
         r["extras"] = rng.choice([[], [], [], ["cloud"], ["empty"], ["cloud", "empty"]])
         r["naming"] = rng.choice([None, None, "same", "camera"])
         r["base"] = rng.choice(["world", "world", "root"])
     elif kind == "points":
         r["n"] = rng.choice([1, 3, 17])
-        r["colors"] = rng.random() < 0.5
+        r["colors"] = rng.choice([False, True, True, "binary"])
     elif kind in ("path2d", "path3d"):
         r["shape"] = rng.choice(["square", "nested", "polyline_open", "circle", "rounded", "dshape", "closed_circle", "reversed_arcs", "lens", "square_unmerged", "triangle_unmerged"]) if kind == "path2d" else rng.choice(["square", "polyline_open", "two_segments", "three_pieces"])
     elif kind == "voxel":
@@ -169,7 +169,8 @@ def build_geometry(r, fmt=None):
         for j, (gi, pi, cls) in enumerate(r["instances"]):
             gi = gi % len(geoms)
             parent = nodes[pi % len(nodes)]
-            M = mx.make(rr, cls)
+            # (scale_near_one: a placement 8 parts per million larger than life - above what the graph repairs to rigid, below 1e-5)
+            M = mx.make(rr, cls) if cls != "scale_near_one" else np.diag([1.000008, 1.000008, 1.000008, 1.0])
             node = f"node{j}"
             if r.get("naming") == "same" and gi not in used:
                 node = f"geom{gi}"  # a node named like the geometry it carries (what loaders of other formats produce)
@@ -187,6 +188,11 @@ def build_geometry(r, fmt=None):
         return sc
     if kind == "points":
         V = np.round(rs.uniform(-3, 3, (r["n"], 3)), 5)
+        if r.get("colors") == "binary":
+            # every channel 0 or 1 (alpha too): small integers a reader may take for something else
+            cols = rs.randint(0, 2, (len(V), 4)).astype(np.uint8)
+            cols[0] = [1, 0, 1, 1]
+            return trimesh.PointCloud(vertices=V, colors=cols)
         if r.get("colors"):
             return trimesh.PointCloud(vertices=V, colors=np.column_stack([rs.randint(0, 256, (len(V), 3)), np.full(len(V), 255)]).astype(np.uint8))
         return trimesh.PointCloud(vertices=V)
